@@ -82,7 +82,8 @@ def values(repo, run, cm):
     for attr in ("counter", "__sol", "__int_status", "__events"):
         a = _assigned_value(reset, attr)
         b = _assigned_value(init, attr)
-        ok = len(a) >= 1 and len(b) >= 1 and all(norm(src(x.value)) == norm(src(b[-1].value)) for x in a)
+        from ..front import semantic_text
+        ok = len(a) >= 1 and len(b) >= 1 and all(norm(semantic_text(repo, x.value)) == norm(semantic_text(repo, b[-1].value)) for x in a)
         run.judged(rid, "reset: %s = %s ; __init__: %s" % (attr, [src(x.value) for x in a], [src(x.value) for x in b]), ok=ok)
         if not ok:
             run.report("C13.2", DS, a[0] if a else reset, "reset() does not give `%s` the value the constructor gives it (%s)" % (attr, src(b[-1].value) if b else "?"),
@@ -148,6 +149,8 @@ def aliasing(repo, run, cm):
                     par = n._parent
                     copied = isinstance(par, ast.Call) and fname(par) in ("clone", "copy", "array", "deepcopy") and par.args and par.args[0] is n
                     attr_only = isinstance(par, ast.Attribute)          # y0.dtype, y0.device, y0.shape
+                    if isinstance(par, ast.keyword):        # passed by keyword: the call is the keyword's parent
+                        par = par._parent
                     passed = isinstance(par, ast.Call) and dotted(par.func) in ("DiffRHS", "D.autoray.infer_backend", "tuple")
                     uses.append((src(st)[:70], copied or attr_only or passed))
                     if not (copied or attr_only or passed):
